@@ -30,7 +30,9 @@ def _dec_partial(op, arr, emb):
 
 
 def run_chunked(case):
-    """case: op keys(ids) vals emb kenc klens|None T mask sort pre."""
+    """case: op keys(ids) vals [vals2] emb kenc klens|None T mask sort pre tf.  With vals2 the call receives two value columns
+    (a list of two arrays: the library runs n_values x pieces tasks and slices the task results back per column) and one trace
+    per column is returned."""
     from groupby_lib import GroupBy, _verif
     op, emb = case["op"], EMB[case["emb"]]
     ids = list(case["keys"])
@@ -48,6 +50,9 @@ def run_chunked(case):
     else:
         keyobj = karr
     values = emb.enc(case["vals"])
+    two = case.get("vals2") is not None and op != "size"
+    if two:
+        values = {"a": values, "b": emb.enc(case["vals2"])}
     mask = build_mask(case["mask"], n)
     tr = {"kernel": KERNEL_OF[op], "keys": ids, "vals": list(case["vals"]), "mask": case["mask"], "nonull": int(emb.nonull),
           "cfg": {k: case.get(k) for k in ("T", "klens", "kenc", "emb", "sort", "pre", "tf")}, "internal": 0,
@@ -84,6 +89,8 @@ def run_chunked(case):
         tr["kcount"] = [-996]
         tr["kcount_exc"] = f"{type(ex).__name__}: {ex}"[:160]
     _verif.drain()
+    if two:
+        return _two_columns(case, tr, out, ev, op, emb, e, tf)
     arr, index = api.to_1d(out)
     res, _ = api.dec_values(op, arr, emb)
     if tf:
@@ -92,20 +99,50 @@ def run_chunked(case):
         by_label = {e.dec(x): r for x, r in zip(index.tolist(), res)}
         tr["final"] = [by_label.get(lab, -996) for lab in tr["labels"]]
         tr["nfinal"] = len(res)
+    _attach_pieces(tr, ev, op, emb, 0)
+    return tr
+
+
+def _attach_pieces(tr, ev, op, emb, col):
+    """the per-piece partials of value column `col` from the ChunkPartials event (results are laid out column by column)."""
     if ev and tr["chunked"]:
         x = ev[-1]          # (size / count_ikey calls do not pass through the hook; the reduction itself is the last event)
         try:
             npieces = len(x["piece_lengths"])
             pieces = []
-            for j in range(npieces):
+            off = col * npieces
+            for j in range(off, off + npieces):
                 if x["pointers"] is None:
                     ptr = list(range(1, len(tr["labels"]) + 1))
                 else:
-                    ptr = [int(p) + 1 for p in x["pointers"][x["first"] + j].tolist()]
+                    ptr = [int(p) + 1 for p in x["pointers"][x["first"] + j - off].tolist()]
                 r = _dec_partial(op, x["results"][j][:-1], emb)
                 c = [int(v) for v in np.asarray(x["counts"][j][:-1]).tolist()]
-                pieces.append({"len": int(x["piece_lengths"][j]), "ptr": ptr, "res": r[:len(ptr)], "cnt": c[:len(ptr)]})
+                pieces.append({"len": int(x["piece_lengths"][j - off]), "ptr": ptr, "res": r[:len(ptr)], "cnt": c[:len(ptr)]})
             tr["pieces"], tr["first"], tr["internal"] = pieces, int(x["first"]), 1
         except Exception as ex:       # the hook's payload changed shape: internal conformance is skipped, never failed
             tr["internal"], tr["internal_error"] = 0, f"{type(ex).__name__}: {ex}"[:200]
-    return tr
+
+
+def _two_columns(case, tr, out, ev, op, emb, e, tf):
+    """one trace per value column; column b's partials are the second block of task results."""
+    import copy
+    traces = []
+    for col, name in enumerate(("a", "b")):
+        t = copy.deepcopy(tr)
+        t["vals"] = list(case["vals"] if col == 0 else case["vals2"])
+        t["column"] = name
+        try:
+            ser = out[name]
+            arr, index = api.to_1d(ser)
+            res, _ = api.dec_values(op, arr, emb)
+            if tf:
+                t["tout"] = res
+            else:
+                by_label = {e.dec(x): r for x, r in zip(index.tolist(), res)}
+                t["final"] = [by_label.get(lab, -996) for lab in t["labels"]]
+        except Exception as ex:
+            t.update(out="raise", exc=type(ex).__name__, msg=f"column {name}: {ex}"[:200])
+        _attach_pieces(t, ev, op, emb, col)
+        traces.append(t)
+    return traces
